@@ -782,6 +782,14 @@ class Analysis:
                     hi = a[1] ** b[1]
                     return (a[0] ** b[0], hi) if hi <= tr[1] else tr
                 return tr
+            if name in ("saturating_sub", "saturating_add") and len(t["a"]) == 2 and tr:
+                a = self.eval_op(f, t["a"][0], pos, env, depth, stack)
+                b = self.eval_op(f, t["a"][1], pos, env, depth, stack)
+                if a and b:
+                    if name == "saturating_sub":
+                        return (max(tr[0], a[0] - b[1]), max(tr[0], a[1] - b[0]))
+                    return (min(tr[1], a[0] + b[0]), min(tr[1], a[1] + b[1]))
+                return tr
             if name == "div_ceil" and len(t["a"]) == 2:
                 a = self.eval_op(f, t["a"][0], pos, env, depth, stack)
                 b = self.eval_op(f, t["a"][1], pos, env, depth, stack)
